@@ -21,6 +21,11 @@ def scenario(rng, again=None):
     sc = dict(msgs=msgs, hook=rng.choice(('none', 'none', 'sending', 'received', 'error', 'all')),
               stalls=rng.choice((0, 0, 1, 2)), drops=rng.choice((0, 0, 0, 1)), seed=rng.randrange(10 ** 9),
               put_hook=rng.random() < 0.3, order=rng.choice((1, 7)))
+    if rng.random() < 0.2:
+        sc['persist'] = True
+        for m in msgs:
+            if rng.random() < 0.5:
+                m['odd'] = True
     if rng.random() < 0.1:
         # an unanswered message whose time-to-live runs out while the link is down (connection lost shortly before, the first
         # reconnection attempt refused): the first request sent afterwards is the bind request of the new connection
@@ -87,7 +92,12 @@ def run(sc):
     from aiosmpplib.protocol import SubmitSm
     from aiosmpplib.correlator import SimpleCorrelator
     rng = random.Random(sc['seed'])
-    corr = SimpleCorrelator('c', max_ttl_response=TTL)
+    pdir = None
+    if sc.get('persist'):
+        # the correlator keeps its stores in files (a non-default configuration): what it is handed must also be writable
+        import tempfile
+        pdir = tempfile.mkdtemp(prefix='c01p-')
+    corr = SimpleCorrelator('c', max_ttl_response=TTL, directory=pdir or '')
     s = Sim(task_order=sc.get('order', 1), enquire_link_interval=2.0, socket_timeout=3.0, correlator=corr)
     try:
         if sc['hook'] in ('sending', 'all'):
@@ -201,10 +211,14 @@ def run(sc):
         queued = []
         for m in sc['msgs']:
             text = ('segmented text ' * 30) if m['seg'] else 'hello'
+            if m.get('odd'):
+                # text as a careless client may hand it over: cut in the middle of a surrogate pair, Latin-1 and astral
+                # characters; sent with error_handling='replace'
+                text = text + ' caf\xe9 \U0001F600 cut\ud83d'
             # segmented messages: SAR parameters, or (every other one, by the position of the message) a concatenation UDH
             udh = m['seg'] and (len(queued) + sc['seed']) % 2 == 1
             queued.append(SubmitSm(short_message=text, auto_message_payload=not m['seg'], log_id=m['log'], extra_data='x' + m['log'],
-                                   esm_class=0x40 if udh else 0))
+                                   esm_class=0x40 if udh else 0, **({'error_handling': 'replace'} if m.get('odd') else {})))
             s.at(m['at'], s.enqueue, queued[-1])
         ag = sc.get('again')
         if ag:
@@ -241,6 +255,9 @@ def run(sc):
         ev = list(s.events)
     finally:
         s.close()
+        if pdir:
+            import shutil
+            shutil.rmtree(pdir, ignore_errors=True)
     return ev
 
 
